@@ -417,6 +417,38 @@ pub fn run(ctx: &Ctx) {
     }
   });
   ctx.subspace(&format!("(4) births (one per day, 10:30:00, of the 11 years before each of {} century years {}) whose model limit ends in 1 Feb..15 Mar of the century year: {} (birth, gender) cases x 4 strategies", cents.len(), if ctx.quick() { format!("{:?}", cents) } else { "100..9900".to_string() }, sel.len()), done, sel.len() as u64);
+  // (5) limits that end in the last three months of the range (October..December 9999): one birth per day (12:00:00) of
+  // 9988..9999, kept when the model end of any strategy falls there (an end after 9999-12-31 is outside the claim)
+  let mut sel5: Vec<(i64, bool)> = Vec::new();
+  {
+    let lo = civ.ord(9999, 10, 1).unwrap() as i64 * 86400;
+    let (a, b) = civ.year_range(9988, 9999);
+    for o in a..b {
+      let birth = o as i64 * 86400 + 12 * 3600;
+      let g = match tm.g_of_inst(birth) {
+        Some(g) => g,
+        None => continue,
+      };
+      let (y, _, gj) = ym_of_g(g);
+      for man in [true, false] {
+        let forward = (year_pillar(y) % 2 == 0) == man;
+        let gi = if forward { gj + 2 } else { gj };
+        if gi >= tm.t.len() || tm.t[gi].inst == i64::MIN {
+          continue;
+        }
+        let jie = tm.t[gi].inst;
+        if [Strat::Default, Strat::China95, Strat::Sect1, Strat::Sect2].iter().any(|st| add_calendar(&civ, birth, counts(*st, &civ, birth, jie)).iter().any(|e| *e >= lo)) {
+          sel5.push((birth, man));
+        }
+      }
+    }
+  }
+  let done = par_chunks(ctx, 0, sel5.len(), 16, |a, b, l| {
+    for k in a..b {
+      check_case(ctx, &civ, &tm, sel5[k].0, sel5[k].1, l);
+    }
+  });
+  ctx.subspace(&format!("(5) births (one per day, 12:00:00, of 9988..9999) whose model limit ends in October..December 9999: {} (birth, gender) cases x 4 strategies", sel5.len()), done, sel5.len() as u64);
   if ctx.primary() {
     let b = civ.ord(1989, 12, 31).unwrap() as i64 * 86400 + 23 * 3600 + 7 * 60 + 17;
     let g = tm.g_of_inst(b).unwrap();
